@@ -191,8 +191,12 @@ Print Assumptions C06_unstable_endpoint_refuted.
 (* ---------- the run-time checker applied to the implementation's ID set ---------- *)
 (* acceptance implies the property's statement on the observed set: no duplicates, requested zooms, both end voxels, single ID
    when the ends share a voxel, every voxel passes the slab test, every voxel reachable from the start voxel under plain
-   26-adjacency (plus: the voxel of an end point with longitude exactly 180, folded by the code onto column 0, touches the
-   last column) *)
+   26-adjacency plus the cyclic identification of longitude on the meridian 180 = -180: the voxels `folds` of column 0 touch the
+   last column. At run time folds = LineCheck.meridian_folds = the observed voxels of column 0 that the segment meets AT longitude
+   180 within the rounding band tol_lon = 2^-38 degrees (turn k = 1 of the slab test): an end point at exactly 180 (which the code
+   folds onto -180) or float midpoints that round to 180.0. This is the same band by which, at every other column boundary, a
+   midpoint that rounds onto the boundary is accepted in the next column. A segment that does not come within the band of 180
+   gets plain adjacency (no wrap-around). *)
 Theorem C06_checker_sound : forall vs ve folds slab h v obs,
   check_line vs ve folds slab h v obs = true ->
   NoDup obs /\ (forall i, In i obs -> eh i = h /\ ev i = v) /\ In vs obs /\ In ve obs /\ (vs = ve -> obs = [vs]) /\
@@ -241,6 +245,13 @@ Theorem C06_step_verdict_does_not_depend_on_history : forall oracle pre opre st 
   nth_error (step_verdicts oracle (pre ++ [st]) (opre ++ [o])) (List.length pre) = Some (step_verdict oracle st o).
 Proof. exact step_verdict_independent. Qed.
 Print Assumptions C06_step_verdict_does_not_depend_on_history.
+(* a one-step history gets exactly the standalone verdict AND class of its step *)
+Theorem C06_single_step_history_is_the_standalone_verdict : forall v,
+  is_class "bad-case" v = false -> is_class "skipped" v = false ->
+  (v_prop v = true -> v_class v = "-"%string) -> (v_corr v = false -> v_class v = "-"%string) ->
+  v_corr (merge_verdicts [v]) = v_corr v /\ v_prop (merge_verdicts [v]) = v_prop v /\ v_class (merge_verdicts [v]) = v_class v.
+Proof. exact merge_single. Qed.
+Print Assumptions C06_single_step_history_is_the_standalone_verdict.
 Theorem C06_history_passes_iff_every_step_passes : forall vs,
   existsb (is_class "bad-case") vs = false -> existsb (is_class "skipped") vs = false ->
   v_prop (merge_verdicts vs) = forallb v_prop vs.
